@@ -10,7 +10,9 @@ from harness.extract import software as x_sw
 from harness.extract import software_recv as x_recv
 from harness.extract import software_loader as x_load
 from harness.extract import software_regs as x_regs
+from harness.extract import software_relay as x_relay
 from harness.rigs import software as rig
+from harness.rigs import software_relay as rrig
 from harness.rigs import software_recv as wrig
 from harness.rigs import software_load as lrig
 
@@ -94,7 +96,7 @@ MANIFEST = {
     "design_ref": "5/C13",
 }
 MODULES = ["PrimaiteModel.Props.C13", "PrimaiteModel.Lemmas.RegistriesRep", "PrimaiteModel.Props.C13Recv", "PrimaiteModel.Props.C13Bots", "PrimaiteModel.Props.C13C2",
-           "PrimaiteModel.Props.C13Loader", "PrimaiteModel.Props.C13AppRun", "PrimaiteModel.Props.C13Regs"]
+           "PrimaiteModel.Props.C13Loader", "PrimaiteModel.Props.C13AppRun", "PrimaiteModel.Props.C13Regs", "PrimaiteModel.Props.C13Relay"]
 EXE = "drv_c13"
 EXE_W = "drv_c13recv"   # two nodes with class data and a transport (receive path, DNS / NTP payload processing)
 
@@ -435,6 +437,12 @@ def replay(rec: dict) -> bool:
         if r.get("oracle"):
             return not any(k == r["oracle"] for (_, k, _, _) in res["oracle"])
         return _diff(res, run_driver(EXE, res["lines"])) < 0
+    if "relay_case" in r:
+        rrig.load_names(run_driver, EXE_W)
+        res = rrig.run_relay_case(r["relay_case"])
+        if r.get("oracle"):
+            return not any(k == r["oracle"] for (k, _, _) in res["oracle"])
+        return (run_driver(EXE_W, res["lines"]) if res["lines"] else []) == res["impl"]
     if "c2_case" in r:
         res = wrig.run_c2_case(r["c2_case"])
         if r.get("oracle"):
@@ -478,6 +486,7 @@ def run(ctx: Ctx):
         ctx.extract("SoftwareRecv", x_recv.emit)
         ctx.extract("SoftwareLoader", x_load.emit)
         ctx.extract("SoftwareRegs", x_regs.emit)
+        ctx.extract("SoftwareRelay", x_relay.emit)
         ctx.prove(MODULES, exes=[EXE, EXE_W], clean=False, leanchecker=ctx.thorough)
     guards = _guards()
     GOV.reset(ctx.thorough)
@@ -686,6 +695,58 @@ def run(ctx: Ctx):
                               {"bot_case": c, "from": "bot"})
     ctx.oblige("rig:R-bot (attack loops of the red applications) agrees on every trace", "correspondence", bagree == bcompared,
                f"{bcompared - bagree} of {bcompared} traces disagree")
+
+    # -- R-relay: two real hosts, FTP client / server and C2 server / beacon (and every class with a fully translated `receive`) in
+    #    every state; at every real receive() / send() call the TRANSLATED chain is run on the observed environment
+    rrig.load_names(run_driver, EXE_W)
+    rrng = ctx.rng.fork("relay")
+    relay_cases = [rrig.gen_relay_case(rrng, max_ops=ctx.scale(24, 40)) for _ in range(ctx.scale(100, 2500))]
+    ragree, rcalls, rseen = 0, 0, {}
+    for k, case in enumerate(relay_cases):
+        res = rrig.run_relay_case(case)
+        model = run_driver(EXE_W, res["lines"]) if res["lines"] else []
+        ctx.cov["traces_validated_against_impl"] += 1
+        ctx.case({"relay": case}, any(not m[2] for m in res["meta"]))
+        ctx.count("relay:ops-raised", res["raised"])
+        for (cls, meth, can, st, nst), i in zip(res["meta"], res["impl"]):
+            rcalls += 1
+            ctx.count(f"relay:{cls}.{meth}:{'may-act' if can else 'may-not-act'}:{i.split()[0]}:{'handler' if i.split()[1] != 'effs=-' else 'no-call'}")
+        hits = set()
+        for (kind, detail, cls) in res["oracle"]:
+            sig = {"kind": "not-running-software-acted" if kind == "payload-handled-while-not-running" else kind, "cls": cls, "via": "relay"}
+            key = json.dumps(sig, sort_keys=True)
+            if key in hits:
+                continue
+            hits.add(key)
+            rseen[key] = rseen.get(key, 0) + 1
+            ctx.count("oracle:" + kind)
+            if rseen[key] <= 2:
+                ctx.violation(sig, f"{kind} in relay:{k}: {detail}", {"relay_case": case, "from": f"relay:{k}", "oracle": kind})
+        j = next((q for q, (a, b) in enumerate(zip(res["impl"], model)) if a != b), -1)
+        if j < 0 and len(model) == len(res["impl"]):
+            ragree += 1
+            continue
+        cls, meth = res["meta"][j][0], res["meta"][j][1]
+        sig = {"kind": "model-vs-impl", "where": "relay", "cls": cls, "meth": meth}
+        mode = GOV.admit("relay", sig)
+        if mode == "count":
+            ctx.count(f"relay:disagree-not-reported:{cls}.{meth}")
+            continue
+        small = case
+        if mode == "shrink":
+            def fails(ops):
+                try:
+                    r2 = rrig.run_relay_case({"ops": ops})
+                    return (run_driver(EXE_W, r2["lines"]) if r2["lines"] else []) != r2["impl"]
+                except Exception:  # noqa
+                    return False
+            small = {"ops": GOV.shrink(case["ops"], fails, budget=60)}
+        ctx.violation(sig, f"real {cls}.{meth} differs from its TRANSLATED chain run on the observed environment: line={res['lines'][j]!r} "
+                           f"impl={res['impl'][j]!r} model={model[j] if j < len(model) else None!r} (state {res['meta'][j][3]}, node {res['meta'][j][4]})",
+                      {"relay_case": small, "from": f"relay:{k}"})
+    ctx.oblige("rig:R-relay (two hosts; FTP client / server, C2 server / beacon: every real receive / send call vs its translated chain) agrees",
+               "correspondence", ragree == len(relay_cases), f"{len(relay_cases) - ragree} of {len(relay_cases)} cases disagree")
+    ctx.cov["relay_calls_compared"] = rcalls
 
     # -- R-c2: one apply_timestep of a real C2Beacon / C2Server in every connection state, and the verdict of _check_connection
     c2rng = ctx.rng.fork("c2")
